@@ -1,11 +1,15 @@
 """Named monitor sets (so that a replay file can rebuild exactly the monitors that produced it)."""
-from harness.monitors import MLife, MCarry, MDrain, MEscape
+from harness.monitors import MLife, MCarry, MDrain, MEscape, MHist, MViews, MFail, MRef, MJoin
 
 def base(scenario):
     life = MLife()
     return [life, MCarry(), MDrain(life), MEscape()]
 
-SETS = {"base": base}
+def full(scenario):
+    life = MLife()
+    return [life, MCarry(), MDrain(life), MEscape(), MHist(), MViews(), MFail(), MRef(scenario), MJoin(scenario)]
+
+SETS = {"base": base, "full": full}
 
 def get(name):
     return SETS[name]
